@@ -60,14 +60,12 @@ def gen_cases(ctx):
     for fail_at in [None] + list(range(0, n + 1)):
       for prefetch in (1, 2, 3):
         for batch in (1, 2, 3, 5):
-          if ctx.quick and rng.random() < 0.45:
-            continue
           for _ in range(reps):
             ctx.count('kind', 'one-client' + ('' if fail_at is None else '+failure'))
             yield dict(prefetch=prefetch, sched=sched_spec(rng),
                        threads=[dict(kind='client', src=gen_src(0, n, fail_at), ret=900, batch=batch)])
   # ---- re-initialisation / stop / shutdown at a scheduler-chosen point
-  m = 420 if ctx.quick else 9000
+  m = 3000 if ctx.quick else 40000
   for _ in range(m):
     n = rng.randrange(0, 5 if ctx.quick else 7)
     fail_at = rng.choice([None, None, None] + list(range(n + 1)))
@@ -339,9 +337,33 @@ def plain_generator(n, fail_at, ret):
   return ret
 
 
+def _e2e_guarded(args, timeout=30):
+  """runs one end-to-end case on a daemon thread (the server must not install signal handlers in the check
+  process, and a blocked request must not hang the check); returns None when it does not finish"""
+  import threading
+  box = {}
+
+  def body():
+    try:
+      box['r'] = _e2e_one(*args)
+    except BaseException as e:  # pylint: disable=broad-except
+      box['e'] = e
+  th = threading.Thread(target=body, daemon=True)
+  th.start()
+  th.join(timeout)
+  if th.is_alive():
+    return None
+  if 'e' in box:
+    raise box['e']
+  return box['r']
+
+
 def extra(ctx):
   import logging
+  import threading
   logging.disable(logging.CRITICAL)
+  hook = threading.excepthook
+  threading.excepthook = lambda args: None   # the failing generators' prefetch threads end with their exception
   try:
     rng = ctx.rng
     combos = [(n, f, p, b) for n in range(0, 7) for f in [None] + list(range(n + 1)) for p in (1, 2, 3) for b in (1, 2, 3, 5)]
@@ -358,11 +380,17 @@ def extra(ctx):
           want_out = {'raise': 'StopIteration', 'args': [e.value]}
         except ValueError:
           want_out = {'raise': 'ValueError'}
-        got, out = _e2e_one(mode, p, b, n, f, 77)
+        res = _e2e_guarded((mode, p, b, n, f, 77))
         ctx.extra_evals += 1
         ctx.count('e2e', mode)
+        case = dict(stage='e2e', mode=mode, prefetch=p, batch=b, n=n, fail_at=f)
+        if res is None:
+          ctx.extra_oracle_failures.append((case, f'end-to-end ({mode}): the client loop did not finish within 30 s '
+                                                  f'(a request stays blocked); the generator is {want} then {want_out}'))
+          return   # the blocked thread is abandoned; one such failure is enough
+        got, out = res
         if got != want or out != want_out:
-          ctx.extra_oracle_failures.append((dict(stage='e2e', mode=mode, prefetch=p, batch=b, n=n, fail_at=f),
-                                            f'end-to-end ({mode}): client saw {got} then {out}; the generator is {want} then {want_out}'))
+          ctx.extra_oracle_failures.append((case, f'end-to-end ({mode}): client saw {got} then {out}; the generator is {want} then {want_out}'))
   finally:
+    threading.excepthook = hook
     logging.disable(logging.NOTSET)
